@@ -329,9 +329,10 @@ Definition tb_wfb (t : tb) : bool :=
 Definition tb_of_blocks (rows : Z) (bs : list blk) : tb :=
   mk_tb bs (tb_dir_from 0 bs) (map fst (flat_map blk_flat bs)) rows
         (Z.of_nat (length (flat_map blk_flat bs)))
+        (* TypeBlocks.__init__: resolve_dtype_iter over the block dtypes (type_blocks.py:280) *)
         (match bs with
          | [] => None
-         | b :: r => if forallb (fun x => dtype_eqb (b_dt x) (b_dt b)) r then Some (b_dt b) else Some DObj
+         | b :: r => Some (fold_left (fun d x => resolve d (b_dt x)) r (b_dt b))
          end).
 
 (* ================================================================== FrameGO *)
